@@ -1,4 +1,4 @@
 CONSTANTS P = 43  A = 0  B = 7  Gx = 2  Gy = 12  N = 31  WithText = TRUE
-CONSTANTS DSet <- DAll  ESet <- EAll  KSet <- KAll  HSet <- HAll  RSet <- RAll  SSet <- SAll  ERSet <- EFew
+CONSTANTS DSet <- DAll  ESet <- EFew  KSet <- KAll  HSet <- HAll  RSet <- RAll  SSet <- SAll  ERSet <- ETwo
 SPECIFICATION Spec
 CHECK_DEADLOCK FALSE
